@@ -284,16 +284,38 @@ impl Scheduler {
                 // for each pair (from -> to) inside the job graph, connect all the corresponding
                 // jobs of the execution graph
                 for &from_coord in from.replicas.values().flatten() {
-                    let to: Vec<_> = to.replicas.values().flatten().collect();
-                    for &to_coord in &to {
-                        if from.is_only_one_strategy || fragile {
-                            if to.len() == 1
-                                || (to_coord.host_id == from_coord.host_id
-                                    && to_coord.replica_id == from_coord.replica_id)
-                            {
-                                self.network.connect(from_coord, *to_coord, typ, fragile);
+                    let mut to: Vec<_> = to.replicas.values().flatten().collect();
+                    if from.is_only_one_strategy || fragile {
+                        // exactly one consumer per producer replica: the same-index one when it
+                        // exists, otherwise (the consumer has fewer replicas) one chosen among the
+                        // replicas of the same host if any, in a way every host computes alike
+                        to.sort();
+                        let same = to.iter().find(|t| {
+                            t.host_id == from_coord.host_id && t.replica_id == from_coord.replica_id
+                        });
+                        let target = match same {
+                            Some(t) => Some(**t),
+                            None if to.len() == 1 => Some(*to[0]),
+                            None => {
+                                let local: Vec<_> = to
+                                    .iter()
+                                    .filter(|t| t.host_id == from_coord.host_id)
+                                    .collect();
+                                if !local.is_empty() {
+                                    Some(**local[from_coord.replica_id as usize % local.len()])
+                                } else if !to.is_empty() {
+                                    let idx = from.global_ids[&from_coord] as usize % to.len();
+                                    Some(*to[idx])
+                                } else {
+                                    None
+                                }
                             }
-                        } else {
+                        };
+                        if let Some(to_coord) = target {
+                            self.network.connect(from_coord, to_coord, typ, fragile);
+                        }
+                    } else {
+                        for &to_coord in &to {
                             self.network.connect(from_coord, *to_coord, typ, fragile);
                         }
                     }
